@@ -521,7 +521,12 @@ class Node(
         if fetch_input:
             self.inputs.fetch()
 
-        if self.use_cache and self.cache_hit:  # Read and use cache
+        if (
+            self.use_cache
+            and self.cache_hit
+            and not self.running
+            and (self.ready or not check_readiness)
+        ):  # Read and use cache -- but only where an actual run would be admitted too
             self._on_cache_hit()
             if (self.parent is None or not self.parent.running) and emit_ran_signal:
                 self.emit()
@@ -533,10 +538,12 @@ class Node(
             return True, self._outputs_to_run_return()
         else:
             self._on_cache_miss()
-            if self.use_cache:  # Write cache and continue
-                self._cached_inputs = self.inputs.to_value_dict()
 
-        return super()._before_run(check_readiness=check_readiness)
+        result = super()._before_run(check_readiness=check_readiness)
+        if self.use_cache:  # Write cache and continue
+            # Only once the run is admitted -- a refused run must not vouch for outputs
+            self._cached_inputs = self.inputs.to_value_dict()
+        return result
 
     def _on_cache_hit(self) -> None:
         """A hook for subclasses to act on cache hits"""
@@ -563,6 +570,10 @@ class Node(
             run_finally_kwargs=run_finally_kwargs,
             finish_run_kwargs=finish_run_kwargs,
         )
+
+    def _run_exception(self, /, *args, **kwargs):
+        super()._run_exception(*args, **kwargs)
+        self._cached_inputs = None  # The outputs do not belong to these inputs
 
     def _run_finally(self, /, emit_ran_signal: bool, raise_run_exceptions: bool):
         super()._run_finally()
